@@ -5,7 +5,8 @@ Driver entry for property C18 (model: Molli.Model.Jobmap). One request payload (
      items   = keyhex:subs,…       subs = `-` (single job) or the number of sub-jobs   (keys and job names hex-encoded UTF-8)
      predest = key=markerhex,… | -  (entries of the destination before the first run)
      plans   = job=PLAN[+PLAN…],… | -   one PLAN per command of the job;       PLAN = S | F<c> | W<c> | K<signal> | N<n>/<c> | U<n>/<c> | O      (default S)
-     runs    = tag:strict[:reset];…  strict = 1 | 0; reset = 1: the destination is replaced by an empty one before the run
+     runs    = tag:strict[:reset[:damaged]];…  strict = 1 | 0; reset = 1: the destination is replaced by an empty one before the
+                                      run; damaged = jobhex+jobhex…: cache outputs made unreadable before the run
   → per run, joined by ` | `:
      `ex=<executed jobs, sorted,> dest=<key=valuehex sorted,> cache=<job=code/payloadhex|- sorted,> att=<job=n,>`
      or `raise` (variant s: the call raises; the state is unchanged)
@@ -51,12 +52,16 @@ def parseKV? {α : Type} (f : String → Option α) (s : String) : Option (Strin
   | [k, v] => do pure (← strOfHex? k, ← f v)
   | _ => none
 
-/-- a run and whether the destination is replaced by a new empty one before it -/
-def parseRun? (plans : List (String × List Plan)) (s : String) : Option (Run × Bool) :=
+/-- a run, whether the destination is replaced by a new empty one before it, and the jobs whose cache output is
+damaged (unreadable = absent) before it -/
+def parseRun? (plans : List (String × List Plan)) (s : String) : Option (Run × Bool × List String) :=
   let mk (t st : String) : Run := { tag := t, plan := fun j => ((plans.find? (·.1 == j)).map (·.2)).getD [.ok], strict := st == "1" }
   match s.splitOn ":" with
-  | [t, st] => some (mk t st, false)
-  | [t, st, rs] => some (mk t st, rs == "1")
+  | [t, st] => some (mk t st, false, [])
+  | [t, st, rs] => some (mk t st, rs == "1", [])
+  | [t, st, rs, dm] => do
+    let jobs ← (splitL dm "+").mapM strOfHex?
+    pure (mk t st, rs == "1", jobs)
   | _ => none
 
 def sortS (l : List String) : List String := l.mergeSort (fun a b => !(b < a))
@@ -82,9 +87,11 @@ def handle (payload : String) : String :=
       | some rs =>
         let st0 : St := { emptySt with dest := fun k => (pre.find? (·.1 == k)).map (·.2) }
         let destKeys := pre.map (·.1) ++ src.map (·.key)
-        let step := fun (acc0 : St × List String) (rr : Run × Bool) =>
+        let step := fun (acc0 : St × List String) (rr : Run × Bool × List String) =>
           let r := rr.1
-          let acc : St × List String := if rr.2 then ({ acc0.1 with dest := fun _ => none }, acc0.2) else acc0
+          let st1 : St := if rr.2.1 then { acc0.1 with dest := fun _ => none } else acc0.1
+          let st2 : St := { st1 with cache := fun j => if j ∈ rr.2.2 then none else st1.cache j }
+          let acc : St × List String := (st2, acc0.2)
           if v == "s" then
             match runShipped src (destKeys.filter fun k => (acc.1.dest k).isSome) r acc.1 with
             | none => (acc.1, acc.2 ++ ["raise"])
